@@ -4,6 +4,7 @@ import json
 import os
 import shutil
 
+import ext.pem
 import flowgrid
 import flowstep
 import gen
@@ -87,6 +88,8 @@ def judge(ctx, helper, results):
             if tuple(snap) != tuple(obs["initial_raw"]):
                 ctx.violation("a failed attempt rewrote the installed files (same key identity, different bytes): "
                               "fault %s at %s" % (sc["fault"], flowgrid.pos_name(sc["pos"])), {"sc": sc})
+    # the certificate file as a PEM chain: Spec.C15.certChainParses / certChainIs (Model/Pem) on the same snapshot
+    ext.pem.extend_c03(ctx, helper, keep, verdicts)
     ctx.traces += len(keep)
 
 
